@@ -56,6 +56,14 @@ def check(prop: str, tier: str, root: str = REPO, evidence: bool = True) -> int:
         except AnalysisError as e:
             st_error = e
     extra = None
+    if tier == "thorough" and st_error is None and not new:
+        from .selftest import seeded_regression
+
+        try:
+            sr = seeded_regression(prog, prop, lambda p: run_rules_on(p, prop, mod, tier, check_floors=False).findings, ctx.findings)
+            extra = {"seeded_regression": sr}
+        except AnalysisError as e:
+            st_error = e
     if tier == "thorough" and hasattr(mod, "thorough"):
         extra = mod.thorough(ctx)
         known_hit, new = split_known(ctx.findings)
@@ -73,6 +81,7 @@ def check(prop: str, tier: str, root: str = REPO, evidence: bool = True) -> int:
         f"{sum(1 for o in ctx.obligations if o['ok'])} hold, {len(known_hit)} known findings, {len(new)} new violations; "
         f"{wall:.2f}s"
         + (f"; self-test variants applied {selftest['variants_applied']}, skipped {selftest['variants_skipped']}" if selftest else "")
+        + (f"; seeded changes re-applied {extra['seeded_regression']['applied']} (reported {extra['seeded_regression']['reported']}, skipped {extra['seeded_regression']['skipped']})" if extra and "seeded_regression" in extra else "")
     )
     if selftest:
         for d in selftest["details"]:
